@@ -67,6 +67,7 @@ def reference(vol, n, pos):
     T = -np.ones(shape, dtype=int)
     value = np.full(shape + (m.nfields,), np.nan)
     near = []     # per level: pixel has a box whose normal extent +- half a cell contains pos
+    contains = []  # per level: pixel has a box whose closed normal extent contains pos
     amb = np.zeros(shape, dtype=bool)
     for lv in range(L + 1):
         f = 2 ** (L - lv)
@@ -101,8 +102,19 @@ def reference(vol, n, pos):
             w1 = (pos - c0) / (c1 - c0)
             val = planes[0][1] * (1.0 - w1) + planes[1][1] * w1
         value[allc] = val[allc]
+        # levels that have a box AT the pixel: a box whose closed normal extent contains pos
+        dx = m.dx[lv][n]
+        N = m.grid_sizes[lv][n]
+        t = (pos - m.geo_low[n]) / dx
+        cells = {min(max(int(np.floor(t)), 0), N - 1)}
+        if abs(t - round(t)) < 1e-9:          # on a cell face: the cells on both sides
+            cells = {min(max(int(round(t)) - 1, 0), N - 1), min(max(int(round(t)), 0), N - 1)}
+        cont = np.zeros(shape, dtype=bool)
+        for kk in cells:
+            cont |= plane(vol, lv, n, kk, f)[0]
+        contains.append(cont)
         near.append(anyc_near)
-    return {"value": value, "decided": (S == T) & (S >= 0) & ~amb, "S": S, "T": T, "near": near,
+    return {"value": value, "decided": (S == T) & (S >= 0) & ~amb, "S": S, "T": T, "near": near, "contains": contains,
             "cx": cx, "cy": cy}
 
 
